@@ -11,6 +11,7 @@ pub mod c11;
 pub mod c12;
 pub mod c13;
 pub mod c15;
+pub mod c16;
 
 use crate::run::Tier;
 
@@ -28,6 +29,7 @@ pub fn dispatch(id: &str, tier: Tier) -> Option<i32> {
         "C12" => Some(c12::run(tier)),
         "C13" => Some(c13::run(tier)),
         "C15" => Some(c15::run(tier)),
+        "C16" => Some(c16::run(tier)),
         _ => None,
     }
 }
